@@ -234,3 +234,34 @@ def t_writers(world):
 _t_c02e = tasks
 def tasks(tier):
     return _t_c02e(tier) + [('writers', t_writers)]
+
+
+# ---------------------------------------------------------------- C02.d: a bank can be closed only when nothing is recorded against it
+def t_close_bank(world):
+    from specs.handlers import run_handler, KERNELS
+    from specs.C12 import find_accounts
+    eng, f, args, res = run_handler(world, r'close_bank::lending_pool_close_bank$', kernels=[k for k in KERNELS if k not in (r'validate$',)])
+    ob = Ob('C02.d', 'lending_pool_close_bank: Ok => both position counters are 0, |total_asset_shares| < 0.0001 and |total_liability_shares| < 0.0001, emissions remaining < 0.0001, and the close-enabled flag is set',
+            [f.name], 'handler mode; every accepting path; all i128 share totals'); ob.paths = len(res)
+    CLOSE_ENABLED = 16
+    c = eng.const_val(None, 'marginfi_type_crate::constants::CLOSE_ENABLED_FLAG')
+    if not isinstance(c, IntV) or z3.simplify(c.e).as_long() != CLOSE_ENABLED: ob.fail('CLOSE_ENABLED_FLAG is not 1<<4'); return [ob]
+    for r, okc in ok_paths(res):
+        if ob.witness(eng, r, [okc]) is False: continue
+        accts = {}
+        for root in r['roots']: accts.update(find_accounts(eng, root))
+        banks = [c_ for c_, sv in accts.items() if re.sub(r'<.*', '', sv.ty).split('::')[-1] == 'Bank']
+        if len(banks) != 1: ob.fail(f'bank objects: {banks}'); continue
+        b = banks[0]; g = lambda n: fsym(b, 'Bank', n)
+        ab = lambda x: z3.If(x >= 0, x, -x)
+        ob.prove(eng, r, [okc], z3.And(g('lending_position_count') == 0, g('borrowing_position_count') == 0), 'no open positions are counted on the bank', role='close-counters')
+        ob.prove(eng, r, [okc], z3.And(ab(g('total_asset_shares')) < ZAT, ab(g('total_liability_shares')) < ZAT), 'share totals are zero within 0.0001 on BOTH sides', role='close-totals')
+        ob.prove(eng, r, [okc], ab(g('emissions_remaining')) < ZAT, 'no funded emissions remain', role='close-emissions')
+        ob.prove(eng, r, [okc], (g('flags') / CLOSE_ENABLED) % 2 == 1, 'only banks with reliable counters (CLOSE_ENABLED) can close', role='close-flag')
+    ob.need_witness()
+    return [ob]
+
+
+_t_c02d = tasks
+def tasks(tier):
+    return _t_c02d(tier) + [('close_bank', t_close_bank)]
